@@ -65,7 +65,7 @@ pub fn encode_value(val: &Value) -> Result<Vec<u8>> {
 /// Decode deterministic CBOR bytes into a `ciborium::value::Value`.
 pub fn decode_value(bytes: &[u8]) -> Result<Value> {
     let mut idx = 0usize;
-    let v = dec_value(bytes, &mut idx)?;
+    let v = dec_value(bytes, &mut idx, 0)?;
     if idx != bytes.len() {
         return Err(CanonError::Trailing);
     }
@@ -220,7 +220,18 @@ fn write_major(major: u8, n: u128, out: &mut Vec<u8>) {
     }
 }
 
-fn dec_value(bytes: &[u8], idx: &mut usize) -> Result<Value> {
+/// Maximum container nesting accepted by the decoder (mirrors the Edict canonical codec):
+/// recursion depth must not be controlled by the input.
+const MAX_NESTING_DEPTH: usize = 128;
+
+fn check_depth(depth: usize) -> Result<()> {
+    if depth >= MAX_NESTING_DEPTH {
+        return Err(CanonError::Decode("container nesting too deep".into()));
+    }
+    Ok(())
+}
+
+fn dec_value(bytes: &[u8], idx: &mut usize, depth: usize) -> Result<Value> {
     fn need(bytes: &[u8], idx: usize, n: usize) -> Result<()> {
         if bytes.len().saturating_sub(idx) < n {
             Err(CanonError::Incomplete)
@@ -319,16 +330,18 @@ fn dec_value(bytes: &[u8], idx: &mut usize) -> Result<Value> {
             }
         }
         4 => {
+            check_depth(depth)?;
             let len = read_len(bytes, idx, info)? as usize;
             // Every element occupies at least one byte: bound the pre-allocation by the input.
             need(bytes, *idx, len)?;
             let mut items = Vec::with_capacity(len);
             for _ in 0..len {
-                items.push(dec_value(bytes, idx)?);
+                items.push(dec_value(bytes, idx, depth + 1)?);
             }
             Ok(Value::Array(items))
         }
         5 => {
+            check_depth(depth)?;
             let len = read_len(bytes, idx, info)? as usize;
             // Every entry occupies at least two bytes (key + value): bound the pre-allocation by the input.
             need(bytes, *idx, len.checked_mul(2).ok_or(CanonError::Incomplete)?)?;
@@ -336,7 +349,7 @@ fn dec_value(bytes: &[u8], idx: &mut usize) -> Result<Value> {
             let mut last_key: Option<Vec<u8>> = None;
             for _ in 0..len {
                 let key_start = *idx;
-                let k = dec_value(bytes, idx)?;
+                let k = dec_value(bytes, idx, depth + 1)?;
                 let key_end = *idx;
                 let kb = &bytes[key_start..key_end];
                 if let Some(prev) = &last_key {
@@ -347,7 +360,7 @@ fn dec_value(bytes: &[u8], idx: &mut usize) -> Result<Value> {
                     }
                 }
                 last_key = Some(kb.to_vec());
-                let v = dec_value(bytes, idx)?;
+                let v = dec_value(bytes, idx, depth + 1)?;
                 entries.push((k, v));
             }
             Ok(Value::Map(entries))
